@@ -245,6 +245,69 @@ _BUILTIN_EXC = {n: getattr(builtins, n) for n in dir(builtins)
 # ----------------------------------------------------------------------------- the enumerator
 
 
+def _format_to_joinedstr(n: ast.Call):
+    """`"lit{}…".format(a, b)` with plain positional fields is the f-string `f"lit{a}…"`: same value, same
+    evaluation order of the arguments.  Anything else (keywords, format specs, attribute fields) -> None."""
+    f = n.func
+    if not (isinstance(f, ast.Attribute) and f.attr == "format" and isinstance(f.value, ast.Constant) and isinstance(f.value.value, str)):
+        return None
+    if n.keywords or any(isinstance(a, ast.Starred) for a in n.args):
+        return None
+    import string
+
+    try:
+        parts = list(string.Formatter().parse(f.value.value))
+    except ValueError:
+        return None
+    values = []
+    auto = 0
+    used = []
+    for lit, field, spec, conv in parts:
+        if lit:
+            values.append(ast.Constant(value=lit))
+        if field is None:
+            continue
+        if spec:
+            return None
+        if field == "":
+            idx = auto
+            auto += 1
+        elif field.isdigit():
+            idx = int(field)
+        else:
+            return None
+        if idx >= len(n.args):
+            return None
+        used.append(idx)
+        values.append(ast.FormattedValue(value=n.args[idx], conversion=ord(conv) if conv else -1, format_spec=None))
+    if used != list(range(len(n.args))):
+        return None  # an argument reused, skipped or out of order: keep the call as it is
+    node = ast.JoinedStr(values=values)
+    return ast.copy_location(node, n)
+
+
+def _literal_kwargs(v: ast.AST, events):
+    """Keywords of `**v` when v is a dict display with constant string keys that nothing touched since."""
+    if not (isinstance(v, ast.Name) and v.id.startswith("$l") and v.id[2:].isdigit()):
+        return None
+    i = int(v.id[2:])
+    if i >= len(events) or events[i].kind != "alloc" or not isinstance(events[i].term, ast.Dict):
+        return None
+    d = events[i].term
+    if any(k_ is None or not (isinstance(k_, ast.Constant) and isinstance(k_.value, str) and k_.value.isidentifier()) for k_ in d.keys):
+        return None
+    for e in events[i + 1:]:
+        if e.term is None:
+            continue
+        if e.kind == "store" and e.x.get("subscript") and show(e.term.value) == v.id:
+            return None
+        if e.kind == "call" and isinstance(e.term.func, ast.Attribute) and show(e.term.func.value) == v.id:
+            return None
+        if e.kind == "call" and any(show(a) == v.id for a in list(e.term.args) + [kw.value for kw in e.term.keywords if kw.arg is not None]):
+            return None  # handed to other code, which may mutate it
+    return [ast.keyword(arg=k_.value, value=val) for k_, val in zip(d.keys, d.values)]
+
+
 class Enumerator:
     def __init__(
         self,
@@ -963,12 +1026,21 @@ class Enumerator:
     def e_Call(self, n: ast.Call, st: St, k, awaited=False):
         if isinstance(n.func, ast.Name) and n.func.id == "super" and not n.args and "super" not in st.env:
             return k(st, n)
+        js = _format_to_joinedstr(n)
+        if js is not None:
+            return self.ev(js, st, k)
         kwnodes = [kw.value for kw in n.keywords]
 
         def kf(st1, f):
             def kargs(st2, vals):
                 args = vals[: len(n.args)]
-                kws = [ast.keyword(arg=kw.arg, value=v) for kw, v in zip(n.keywords, vals[len(n.args):])]
+                kws = []
+                for kw, v in zip(n.keywords, vals[len(n.args):]):
+                    lit = _literal_kwargs(v, st2.events) if kw.arg is None else None
+                    if lit is not None:
+                        kws.extend(lit)  # f(**{"a": x}) is f(a=x)
+                    else:
+                        kws.append(ast.keyword(arg=kw.arg, value=v))
                 term = ast.Call(func=f, args=args, keywords=kws)
                 callees = self.r.resolve_call(term, st2) if self.r is not None else None
                 ev = Ev("call", term, n, st2.fn, {"awaited": awaited, "callee": callees,
